@@ -476,7 +476,7 @@ class C06(Monitor):
         for n in Q.transitive_nodes:
             k = len(here(n))
             tot += k
-            if n.schedule is None or is_ps(n):
+            if (n.schedule is None or is_ps(n)) and not Q.flags.get("overcap_ok"):
                 cap = self.expected_capacity(n)
                 self.ck(k <= cap, "node_over_capacity",
                         lambda: "node %s holds %d customers, servers+queue capacity = %s" % (n.id_number, k, cap))
@@ -663,7 +663,7 @@ class C08(Monitor):
     def at_end(self):
         """records: under FIFO nobody overtakes an equal-or-higher priority earlier arrival"""
         Q = self.Q
-        if Q.flags.get("no_overtake_check"):
+        if Q.flags.get("no_overtake_check") or Q.flags.get("class_change_waiting") or Q.flags.get("priority_changes_while_waiting") is not None:
             return
         pm = Q.network.priority_class_mapping
         for n in Q.transitive_nodes:
@@ -944,7 +944,8 @@ class C11(Monitor):
         Q = self.Q
         for n in Q.transitive_nodes:
             if n.priority_preempt is not False and finite(n):
-                ins = served(n)
+                # customers finishing as overtime on off-duty servers cannot be pre-empted in favour of anybody
+                ins = [i for i in served(n) if not i.server.offduty]
                 wt = [i for i in here(n) if not i.server and not i.interrupted]
                 if ins and wt:
                     self.ck(min(i.priority_class for i in wt) >= max(i.priority_class for i in ins), "priority_inversion",
@@ -1168,7 +1169,8 @@ class C12(Monitor):
                 self.ck(AnyOf(LE(now, lo), LE(hi, now)), "service_start_in_zero_server_shift",
                         lambda: "customer %s starts service at node %s at %s inside the zero-server shift (%s, %s)" % (ind.id_number, node.id_number, now, lo, hi))
         intr = list(node.interrupted_individuals)
-        if tt["preemption"] is not False and intr:
+        preempting = any(p["event"] == Q.tr.event_no and p["newcomer"] == ind.id_number and p["node"] == node.id_number for p in Q.tr.preempts)
+        if tt["preemption"] is not False and intr and not preempting:
             self.ck(any(ind is x for x in intr), "fresh_customer_before_interrupted",
                     lambda: "node %s: customer %s starts while interrupted customers %s wait" % (node.id_number, ind.id_number, [x.id_number for x in intr]))
             if any(ind is x for x in intr):
@@ -1498,10 +1500,14 @@ class C18(Monitor):
         self.first_visit[Q.statetracker.hash_state()] = 0.0
         self.t_dl = None
 
+    def pre_any_event(self, node):
+        Q = self.Q
+        if Q.flags.get("until_deadlock"):
+            self.ck(not self.prev, "continued_after_deadlock",
+                    lambda: "the run goes on to event %d (%s) although a deadlock exists since event %d" % (Q.tr.event_no + 1, node, Q.tr.event_no))
+
     def post_event(self, node, nxt, ctx):
         Q = self.Q
-        self.ck(not self.prev, "continued_after_deadlock",
-                lambda: "event %d executed although a deadlock existed after the previous event" % Q.tr.event_no)
         S = deadlock_oracle(Q)
         self.now_dl = bool(S)
         self.prev = self.now_dl
